@@ -10,6 +10,18 @@ import Mahotas.Proofs.C08Kernels
 import Mahotas.Proofs.C08Defined
 import Mahotas.Proofs.C05Nd
 import Mahotas.Proofs.C13BBox
+import Mahotas.Proofs.C08Ties
+import Mahotas.Proofs.C08TiesMark
+import Mahotas.Proofs.C08TiesDilate
+import Mahotas.Proofs.C08TiesHitmiss
+import Mahotas.Proofs.C08Fast
+import Mahotas.Proofs.C08Rank
+import Mahotas.Properties.C01
+import Mahotas.Properties.C04
+import Mahotas.Properties.C06
+import Mahotas.Properties.C07
+import Mahotas.Properties.C13
+import Mahotas.Properties.C14
 import Mathlib.Data.List.Basic
 import Mahotas.Generated.Normalise
 import Mahotas.Generated.CopyGuards
@@ -438,60 +450,6 @@ theorem C08_dilate_layout_free (dt : DT) (mA₁ mA₂ mB₁ mB₂ : Int → Int)
     intro res i hi
     rw [readIter_layout_free mA₁ mA₂ vA₁ vA₂ wA₁ wA₂ eA i (List.mem_range.1 hi) 0]
 
-/-- **hitmiss is layout-free (partial).** `hitmiss<T>` reads its input as `input.at_flat(i + delta)` (F8), the template
-through its iterator and `position()` (F7), and computes `delta` and its loop control with `pos_to_flat` /
-`flat_to_pos`, which depend on the dimensions only. *Gap:* that every evaluated `i + delta` is a valid flat index is
-taken as a hypothesis here (it is C10's `C10_hitmiss_in_bounds`, proved there for C10's own transliteration of the
-loop, not re-derived for this value-level one). -/
-theorem C08_hitmiss_layout_free_partial (mA₁ mA₂ mB₁ mB₂ : Int → Int) (vA₁ vA₂ vB₁ vB₂ : View)
-    (wA₁ : vA₁.WF) (wA₂ : vA₂.WF) (wB₁ : vB₁.WF) (wB₂ : vB₂.WF)
-    (hA : SameLogical mA₁ vA₁ mA₂ vA₂) (hB : SameLogical mB₁ vB₁ mB₂ vB₂)
-    (hsafe : ∀ i, i < shapeSize vA₁.shape →
-      C14.hmEvaluated vA₁.shape vB₁.shape (vA₁.flatToPos (i : Int)) = true →
-      ∀ e ∈ hmTable vA₁ mB₁ vB₁, ((i : Int) + e.1).toNat < shapeSize vA₁.shape) :
-    hitmissView mA₁ vA₁ mB₁ vB₁ = hitmissView mA₂ vA₂ mB₂ vB₂ := by
-  have eA := hA.toImg_eq
-  have eB := hB.toImg_eq
-  have htab : hmTable vA₁ mB₁ vB₁ = hmTable vA₂ mB₂ vB₂ := by
-    unfold hmTable
-    rw [← hB.1]
-    apply List.filterMap_congr
-    intro j hj
-    have hj' : j < shapeSize vB₁.shape := List.mem_range.1 hj
-    have hp := position_eq vB₁ wB₁ j hj'
-    have hp2 := position_eq vB₂ wB₂ j (hB.1 ▸ hj')
-    rw [← hB.1] at hp2
-    simp only [readIter_layout_free mB₁ mB₂ vB₁ vB₂ wB₁ wB₂ eB j hj' 0, hp, hp2, View.posToFlat, hA.1]
-  have hf2p : ∀ i : Int, vA₁.flatToPos i = vA₂.flatToPos i := by
-    intro i; simp only [View.flatToPos, hA.1]
-  unfold hitmissView
-  simp only
-  rw [← hA.1]
-  apply pixelLoop_congr
-  intro i hi
-  by_cases hev : C14.hmEvaluated vA₁.shape vB₁.shape (vA₁.flatToPos (i : Int)) = true
-  · have hev2 : C14.hmEvaluated vA₁.shape vB₂.shape (vA₂.flatToPos (i : Int)) = true := by
-      rw [← hf2p, ← hB.1]; exact hev
-    rw [if_pos hev, if_pos hev2, ← htab]
-    have : (hmTable vA₁ mB₁ vB₁).all (fun e => readAtFlat mA₁ vA₁ ((i : Int) + e.1).toNat == e.2) =
-        (hmTable vA₁ mB₁ vB₁).all (fun e => readAtFlat mA₂ vA₂ ((i : Int) + e.1).toNat == e.2) := by
-      have allc : ∀ (l : List (Int × Int)) (p q : Int × Int → Bool), (∀ x ∈ l, p x = q x) →
-          l.all p = l.all q := by
-        intro l p q h
-        induction l with
-        | nil => rfl
-        | cons a t ih =>
-          simp only [List.all_cons]
-          rw [h a (by simp), ih (fun x hx => h x (by simp [hx]))]
-      apply allc
-      intro e he
-      have hlt := hsafe i hi hev e he
-      rw [readAtFlat_logical mA₁ vA₁ wA₁ _ hlt 0, readAtFlat_logical mA₂ vA₂ wA₂ _ (hA.1 ▸ hlt) 0, eA, hA.1]
-    rw [this]
-  · have hev2 : ¬ C14.hmEvaluated vA₁.shape vB₂.shape (vA₂.flatToPos (i : Int)) = true := by
-      rw [← hf2p, ← hB.1]; exact hev
-    rw [if_neg hev, if_neg hev2]
-
 /-- **distance: every line is addressed by its own stride.** `distance.py` (as repaired) runs the exact 1-D pass on
 `(1, n)` views `lines[idx][None, :]` of the work array: the `t`-th element `_distance.dt` reads from the line
 through `p` along `axis` (`f[t*stride]`) is the logical element at `p` with coordinate `axis` replaced by `t`, for all
@@ -545,34 +503,42 @@ theorem C08_defined_everywhere_cwatershed (mS : Int → Int) (vS : View) (mM : I
     (cwatershedView mS vS mM vM mB vB).lines.size = shapeSize vS.shape :=
   modelRun_sized _ _ _ _ _ (modelInit_sized _ _)
 
-/-- **F15, rank_filter (partial).** With `rank` outside `[0, N2)` the native kernel returns at once and *no* cell is
-written (the defect b48a666 repaired by a guard in the wrapper); inside the range every pixel `i` receives
-`nth_element`'s answer for the gathered samples. *Gap:* that this answer exists (`currank <` number of samples, which
-can only fail in `ignore` mode with a footprint that misses the image entirely) is not proved. -/
-theorem C08_defined_everywhere_rank_filter_partial (m : Mode) (rank : Int) (mA : Int → Int) (vA : View)
-    (mB : Int → Int) (vB : View) :
+/-- **F15, rank_filter.** With `rank` outside `[0, N2)` the native kernel returns at once and *no* cell is written
+(the defect b48a666 repaired by a guard in the wrapper). Inside the guard, for every border mode that delivers or
+replaces every sample (nearest, wrap, reflect, mirror, constant) and — in `ignore` mode — for every neighbourhood
+that contains its centre, every cell of the output is written with a defined value (the `nth_element` answer
+`C07.rankAt` of `C08_rankView_eq_C07`): the gathered sample list is never empty, so `currank < n`.
+The hypothesis on `ignore` mode is necessary: see `C08_rank_filter_ignore_stale_witness`. -/
+theorem C08_defined_everywhere_rank_filter (m : Mode) (rank : Int) (mA : Int → Int) (vA : View)
+    (mB : Int → Int) (vB : View) (h : FilterArgs vA vB true) :
     let fv := mkFiltV (fun x => x != 0) vA mB vB m true
     ((rank < 0 ∨ rank ≥ (fv.fi.size : Int)) →
       rankView m rank mA vA mB vB = Array.replicate (shapeSize vA.shape) none) ∧
-    (¬ (rank < 0 ∨ rank ≥ (fv.fi.size : Int)) →
-      (rankView m rank mA vA mB vB).size = shapeSize vA.shape ∧
-      ∀ i, i < shapeSize vA.shape →
-        (rankView m rank mA vA mB vB).getD i none =
-          C07.nthElement (gatherInner m (fv.neigh 0 mA (iterPtr vA i) i))
-            (C07.curRank (gatherInner m (fv.neigh 0 mA (iterPtr vA i) i)).length fv.fi.size rank.toNat)) := by
+    (0 ≤ rank ∧ rank < (fv.fi.size : Int) →
+      (m ≠ .ignore ∨ (logical mB vB).getD (ravelI vB.shape (centreOf vB.shape)) 0 ≠ 0) →
+      (rankView m rank mA vA mB vB).size = shapeSize vA.shape ∧ AllSome (rankView m rank mA vA mB vB)) := by
   intro fv
   constructor
-  · intro h
+  · intro hr
     unfold rankView
     simp only
-    rw [if_pos h]
-  · intro h
-    unfold rankView
-    simp only
-    rw [if_neg h, pixelLoop_eq]
-    refine ⟨by simp, fun i hi => ?_⟩
-    simp [Array.getD_eq_getD_getElem?, hi]
-    rfl
+    rw [if_pos hr]
+  · intro hr hc
+    exact rankView_defined m rank mA vA mB vB h hr hc
+
+/-- **the `ignore`-mode hypothesis of `C08_defined_everywhere_rank_filter` cannot be dropped.** A 1×2 image, the
+neighbourhood `[[1, 0, 0]]` (only the left neighbour, centre not a member), `mode = ignore`, `rank = 0` (inside the
+wrapper's guard `0 ≤ rank < 1`): at pixel 0 every sample is outside the image and dropped, `nth_element` has no
+element to deliver — the model's cell is `none` (the native kernel stores the stale slot `neighbours[0]` of its
+scratch vector there). -/
+theorem C08_rank_filter_ignore_stale_witness :
+    let mA : Int → Int := fun a => [5, 7].getD a.toNat 0
+    let mB : Int → Int := fun a => [1, 0, 0].getD a.toNat 0
+    let vA : View := { base := 0, shape := [1, 2], strides := [2, 1], carray := true }
+    let vB : View := { base := 0, shape := [1, 3], strides := [3, 1], carray := true }
+    (mkFiltV (fun x => x != 0) vA mB vB .ignore true).fi.size = 1 ∧
+    (rankView .ignore 0 mA vA mB vB).toList = [none, some 5] := by
+  decide +kernel
 
 /-! non-vacuity: a reversed, transposed, gapped 3×2×2 view (negative and non-monotone strides, offset
     base) is well-formed; the iterator, `at_flat` and the address map agree on all 12 elements, and it
@@ -602,4 +568,406 @@ example : FilterArgs vF vB false ∧ FilterArgs vC vB false ∧ SameLogical memF
   refine ⟨⟨⟨rfl, by decide⟩, ⟨rfl, by decide⟩, by (unfold View.Pos; decide), by (unfold View.Pos; decide), rfl, fun _ => rfl⟩,
           ⟨⟨rfl, by decide⟩, ⟨rfl, by decide⟩, by (unfold View.Pos; decide), by (unfold View.Pos; decide), rfl, fun _ => rfl⟩,
           ⟨rfl, by decide⟩, by decide, by decide⟩
+end Mahotas.C08.Example
+
+
+/-! ## Round 3 — every view kernel *is* the owning property's logical model (value-level ties), and therefore returns
+the property's specification for ANY memory layout of its arguments (`C08_<kernel>_view_correct`)
+
+`toImg mem v` / `logical mem v` are the logical array (C order) a (memory, view) pair presents; `FilterArgs` is what the
+wrappers and native guards establish (well-formed views, at least one element per axis, equal rank, and a
+C-contiguous filter where the kernel indexes its raw data pointer). Unwritten cells are `none`: an equation with
+`….map some` on the right also says that every cell is written (F15). -/
+
+namespace Mahotas.C08
+theorem View.Pos.pos {v : View} (h : v.Pos) : ∀ d ∈ v.shape, 0 < d := fun d hd => by have := h d hd; omega
+
+theorem map_some_getD {β : Type} (X : Array β) (i : Nat) (d : β) (hi : i < X.size) :
+    (X.map some).getD i none = some (X.getD i d) := by
+  simp [Array.getD_eq_getD_getElem?, hi]
+end Mahotas.C08
+
+/-- **erode over views = `C01.erodeModel`.** For every dtype, every (memory, view) pair of the image (any strides:
+negative, zero, non-monotone, offset) and of the structuring element: the output of the view-level `erode<T>` is, cell
+by cell, `some` of the array `C01.erodeModel` computes from the *logical* image and the support of the *logical*
+element — the very definition C01's theorems are about. -/
+theorem C08_erodeView_eq_C01 (dt : DT) (mA : Int → Int) (vA : View) (mB : Int → Int) (vB : View)
+    (h : FilterArgs vA vB dt.isBool) :
+    erodeView dt mA vA mB vB =
+      (C01.erodeModel dt (toImg mA vA) (C01.support vB.shape (logical mB vB).toArray dt.isBool)).map some :=
+  erodeView_eq_C01 dt mA vA mB vB h
+
+/-- **erode is correct for any memory layout.** For every integer dtype and bool, every view of an in-range image and
+every view of an admissible structuring element, the view-level kernel writes at every pixel the lattice definition
+`min_{k ∈ Bc} saturate(A[clamp(p+k)] − Bc[k])` of the logical arrays (`C01_erode_model_eq_spec` composed with the tie). -/
+theorem C08_erode_view_correct (dt : DT) (hdt : dt.WF ∨ dt = dtBool) (mA : Int → Int) (vA : View) (mB : Int → Int)
+    (vB : View) (h : FilterArgs vA vB dt.isBool) (hA : C01.ImageInRange dt (toImg mA vA))
+    (hB : C01.AdmissibleElem dt (C01.support vB.shape (logical mB vB).toArray dt.isBool)) :
+    erodeView dt mA vA mB vB =
+      (((allPos vA.shape).map (C01.erodeSpecAt dt (toImg mA vA)
+        (C01.support vB.shape (logical mB vB).toArray dt.isBool))).toArray).map some := by
+  rw [erodeView_eq_C01 dt mA vA mB vB h,
+    (C01_erode_model_eq_spec dt hdt (toImg mA vA) _ h.posA.pos hA hB).2]
+  rfl
+
+/-- **dilate over views = `C01.dilateModel`.** The scatter kernel reads the input through its iterator and writes
+through a filter iterator built on the C-contiguous output: `i + Σ cstride·(q − p)` is the flat index of the clamped
+target `q`, and the `Option` cells of the view model are `some` of the cells of C01's scatter model throughout. -/
+theorem C08_dilateView_eq_C01 (dt : DT) (mA : Int → Int) (vA : View) (mB : Int → Int) (vB : View)
+    (wfA : vA.WF) (h : FilterArgs (outView vA.shape) vB dt.isBool) :
+    dilateView dt mA vA mB vB =
+      (C01.dilateModel dt (toImg mA vA) (C01.support vB.shape (logical mB vB).toArray dt.isBool)).map some :=
+  dilateView_eq_C01 dt mA vA mB vB wfA h
+
+/-- **dilate is correct for any memory layout** at every pixel C01 proves the scatter kernel correct at (regular —
+star-shaped, flat — elements: everywhere; any admissible element: where the element box fits): the written cell is the
+lattice definition `max_{k ∈ Bc} saturate(A[clamp(q−k)] + Bc[k])` of the logical arrays. -/
+theorem C08_dilate_view_correct (dt : DT) (hdt : C01.DTypeOK dt) (mA : Int → Int) (vA : View) (mB : Int → Int)
+    (vB : View) (wfA : vA.WF) (h : FilterArgs (outView vA.shape) vB dt.isBool)
+    (hA : C01.ImageInRange dt (toImg mA vA))
+    (hB : C01.AdmissibleElem dt (C01.support vB.shape (logical mB vB).toArray dt.isBool))
+    (q : List Int) (hq : inside vA.shape q = true)
+    (hobs : (C01.starShaped vB.shape (((C01.support vB.shape (logical mB vB).toArray dt.isBool).filter
+                (C01.isMember dt)).map (·.1)) &&
+             C01.flatHeights (((C01.support vB.shape (logical mB vB).toArray dt.isBool).filter
+                (C01.isMember dt)).map (·.2)) ||
+             C01.boxInterior vA.shape vB.shape q) = true) :
+    (dilateView dt mA vA mB vB).getD (ravelI vA.shape q) none =
+      some (C01.dilateSpecAt dt (toImg mA vA) (C01.support vB.shape (logical mB vB).toArray dt.isBool) q) := by
+  have hsz := (dilateView_defined dt mA vA mB vB).1
+  have hspec := C01_dilate_eq_spec_where_observed dt hdt (toImg mA vA) vB.shape
+    (C01.support vB.shape (logical mB vB).toArray dt.isBool) q h.posA.pos h.rank.symm
+    (C01_support_offsets_in_box vB.shape _ dt.isBool).1 hA hB hq hobs
+  rw [dilateView_eq_C01 dt mA vA mB vB wfA h] at hsz ⊢
+  rw [map_some_getD _ _ dt.lo (by rw [Array.size_map] at hsz; rw [hsz]; exact C01.ravelI_lt _ _ hq)]
+  exact congrArg some hspec
+
+/-- **convolve over views = `C06.convAcc` tabulated** (then the cast `T(cur)`), in any arithmetic — the driver runs
+the polymorphic kernel at exact integers, C06 at `Float`. -/
+theorem C08_convolveView_eq_C06 {α : Type} [Add α] [Mul α] [Zero α] (isZero : α → Bool) (cast : α → α) (m : Mode)
+    (mA : Int → α) (vA : View) (mW : Int → α) (vW : View) (h : FilterArgs vA vW true) :
+    convolveView 0 isZero cast m mA vA mW vW =
+      (((allPos vA.shape).map fun p =>
+        cast (C06.convAcc m (toImg mA vA) (C06.support isZero vW.shape (logical mW vW).toArray) p)).toArray).map
+        some :=
+  convolveView_eq_C06 isZero cast m mA vA mW vW h
+
+/-- **convolve is correct for any memory layout.** Over every commutative semiring, every border mode, every view of
+the image and of the weights: each output cell is the cast of the defining sum `Σ_j w[j]·f[border(p + j − c)]` of the
+logical arrays (`C06_convolve_eq_spec`). -/
+theorem C08_convolve_view_correct {R : Type} [CommSemiring R] (isZero : R → Bool)
+    (hz : ∀ x, isZero x = true → x = 0) (cast : R → R) (m : Mode)
+    (mA : Int → R) (vA : View) (mW : Int → R) (vW : View) (h : FilterArgs vA vW true) :
+    convolveView 0 isZero cast m mA vA mW vW =
+      (((allPos vA.shape).map fun p =>
+        cast (C06.convSpec m (toImg mA vA) vW.shape (logical mW vW).toArray p)).toArray).map some := by
+  rw [convolveView_eq_C06 isZero cast m mA vA mW vW h]
+  congr 2
+  apply List.map_congr_left
+  intro p _
+  rw [C06_convolve_eq_spec isZero hz m (toImg mA vA) h.posA.pos]
+
+/-- **rank_filter over views = `C07.rankAt`** at every pixel (`none` where the native kernel writes nothing defined). -/
+theorem C08_rankView_eq_C07 (m : Mode) (rank : Int) (mA : Int → Int) (vA : View) (mB : Int → Int) (vB : View)
+    (h : FilterArgs vA vB true) :
+    rankView m rank mA vA mB vB =
+      ((allPos vA.shape).map
+        (C07.rankAt m (toImg mA vA) (C07.footprint vB.shape (logical mB vB).toArray) rank)).toArray :=
+  rankView_eq_C07 m rank mA vA mB vB h
+
+/-- **rank_filter (median_filter) is correct for any memory layout**: every cell is the specification
+`C07.rankSpecAt` — the `k`-th smallest of the samples the mathematical border rule selects — of the logical arrays. -/
+theorem C08_rank_filter_view_correct (m : Mode) (rank : Int) (mA : Int → Int) (vA : View) (mB : Int → Int)
+    (vB : View) (h : FilterArgs vA vB true) :
+    rankView m rank mA vA mB vB =
+      ((allPos vA.shape).map
+        (C07.rankSpecAt m (toImg mA vA) (C07.footprint vB.shape (logical mB vB).toArray) rank)).toArray := by
+  rw [rankView_eq_C07 m rank mA vA mB vB h]
+  congr 1
+  apply List.map_congr_left
+  intro p _
+  exact C07_rank_eq_spec m (toImg mA vA) h.posA.pos _ rank p
+
+/-- **mean_filter over views = `C07.meanParts`** (`(sum, n)` per pixel). -/
+theorem C08_meanView_eq_C07 (m : Mode) (mA : Int → Int) (vA : View) (mB : Int → Int) (vB : View)
+    (h : FilterArgs vA vB true) :
+    meanView m mA vA mB vB =
+      (((allPos vA.shape).map
+        (C07.meanParts m (toImg mA vA) (C07.footprint vB.shape (logical mB vB).toArray))).toArray).map some :=
+  meanView_eq_C07 m mA vA mB vB h
+
+/-- **mean_filter is correct for any memory layout**: exact sum and number of the samples the border rule selects. -/
+theorem C08_mean_filter_view_correct (m : Mode) (mA : Int → Int) (vA : View) (mB : Int → Int) (vB : View)
+    (h : FilterArgs vA vB true) :
+    meanView m mA vA mB vB =
+      (((allPos vA.shape).map
+        (C07.meanSpecParts m (toImg mA vA) (C07.footprint vB.shape (logical mB vB).toArray))).toArray).map some := by
+  rw [meanView_eq_C07 m mA vA mB vB h]
+  congr 2
+  apply List.map_congr_left
+  intro p _
+  exact C07_mean_exact m (toImg mA vA) h.posA.pos _ p
+
+/-- **template_match over views = `C07.tmAt`** (template C-contiguous, as the wrapper passes it). -/
+theorem C08_tmView_eq_C07 (m : Mode) (mA : Int → Int) (vA : View) (mT : Int → Int) (vT : View)
+    (h : FilterArgs vA vT false) :
+    tmView m mA vA mT vT =
+      (((allPos vA.shape).map
+        (C07.tmAt m (toImg mA vA) vT.shape (logical mT vT).toArray)).toArray).map some :=
+  tmView_eq_C07 m mA vA mT vT h
+
+/-- **template_match is correct for any memory layout of the image**: the sum of squared differences `C07.tmSpecAt`. -/
+theorem C08_template_match_view_correct (m : Mode) (mA : Int → Int) (vA : View) (mT : Int → Int) (vT : View)
+    (h : FilterArgs vA vT false) :
+    tmView m mA vA mT vT =
+      (((allPos vA.shape).map
+        (C07.tmSpecAt m (toImg mA vA) vT.shape (logical mT vT).toArray)).toArray).map some := by
+  rw [tmView_eq_C07 m mA vA mT vT h]
+  congr 2
+  apply List.map_congr_left
+  intro p _
+  exact C07_template_match_ssd m (toImg mA vA) h.posA.pos _ _ p
+
+/-- **locmin_max over views = `C14.locModel`** with the neighbourhood `C14.neighbours` (centre removed; a centre entry
+left in `Bc` never beats the pixel itself, so it changes nothing). -/
+theorem C08_locView_eq_C14 (isMin : Bool) (mA : Int → Int) (vA : View) (mB : Int → Int) (vB : View)
+    (h : FilterArgs vA vB true) :
+    locView isMin mA vA mB vB =
+      (C14.locModel isMin (toImg mA vA) (C14.neighbours vB.shape (logical mB vB).toArray)).map some :=
+  locView_eq_C14 isMin mA vA mB vB h
+
+/-- **locmax/locmin are correct for any memory layout**: with a star-shaped neighbourhood (cross, box, disk) a pixel is
+marked exactly when no neighbour *inside the image* beats it (`C14_locmax_eq_spec`). -/
+theorem C08_locminmax_view_correct (isMin : Bool) (mA : Int → Int) (vA : View) (mB : Int → Int) (vB : View)
+    (h : FilterArgs vA vB true)
+    (hstar : C14.StarShaped (C14.neighbours vB.shape (logical mB vB).toArray)) :
+    locView isMin mA vA mB vB =
+      (((allPos vA.shape).map
+        (C14.locSpecAt isMin (toImg mA vA) (C14.neighbours vB.shape (logical mB vB).toArray))).toArray).map some := by
+  rw [locView_eq_C14 isMin mA vA mB vB h]
+  unfold C14.locModel
+  congr 2
+  apply List.map_congr_left
+  intro p hp
+  obtain ⟨hin, hpl⟩ := C10.mem_allPos _ _ hp
+  apply C14_locmax_eq_spec isMin (toImg mA vA) _ p hin _ hstar
+  intro k hk
+  rw [C14_neighbours_eq] at hk
+  simp only [List.mem_map] at hk
+  obtain ⟨kk, _, rfl⟩ := hk
+  rw [offAt_length, hpl]
+  exact h.rank.symm
+
+/-- **labeled.borders over views = `C13.bordersModel`.** -/
+theorem C08_bordersView_eq_C13 (m : Mode) (mA : Int → Int) (vA : View) (mB : Int → Int) (vB : View)
+    (h : FilterArgs vA vB true) :
+    bordersView m mA vA mB vB =
+      ((C13.bordersModel m vA.shape (logical mA vA) (C03.offsets vB.shape (logical mB vB).toArray)).map
+        some).toArray :=
+  bordersView_eq_C13 m mA vA mB vB h
+
+/-- **labeled.borders is correct for any memory layout**: a pixel is marked exactly when one of the neighbours the
+element and the mathematical border rule of the mode define carries a different label (`C13_borders_spec`). -/
+theorem C08_borders_view_correct (m : Mode) (mA : Int → Int) (vA : View) (mB : Int → Int) (vB : View)
+    (h : FilterArgs vA vB true) :
+    bordersView m mA vA mB vB =
+      ((C13.bordersSpec m vA.shape (logical mA vA) (C03.offsets vB.shape (logical mB vB).toArray)).map
+        some).toArray := by
+  rw [bordersView_eq_C13 m mA vA mB vB h, C13_borders_spec m vA.shape _ _ h.posA.pos]
+
+/-- **hitmiss over views = `C14.hitmissAt`, no bound assumed.** Wherever the loop control lets the template be
+evaluated the template fits, so every `i + delta` is the flat index of the inside position `p + k − centre` (the
+argument of `C10_hitmiss_in_bounds`, re-derived here for the pointwise loop control `C14.hmEvaluated`, odd and even
+template sizes); `at_flat` (F8) then reads that logical element, whatever the strides. -/
+theorem C08_hitmissView_eq_C14 (mA : Int → Int) (vA : View) (mB : Int → Int) (vB : View) (wfA : vA.WF) (wfB : vB.WF)
+    (hl : vB.shape.length = vA.shape.length) :
+    hitmissView mA vA mB vB =
+      (((allPos vA.shape).map
+        (C14.hitmissAt (toImg mA vA) vB.shape (C14.hmEntries vB.shape (logical mB vB).toArray))).toArray).map
+        some :=
+  hitmissView_eq_C14 mA vA mB vB wfA wfB hl
+
+/-- **hitmiss is layout-free** (replaces `C08_hitmiss_layout_free_partial`: the in-bounds hypothesis is gone). -/
+theorem C08_hitmiss_layout_free (mA₁ mA₂ mB₁ mB₂ : Int → Int) (vA₁ vA₂ vB₁ vB₂ : View)
+    (wA₁ : vA₁.WF) (wA₂ : vA₂.WF) (wB₁ : vB₁.WF) (wB₂ : vB₂.WF) (hl : vB₁.shape.length = vA₁.shape.length)
+    (hA : SameLogical mA₁ vA₁ mA₂ vA₂) (hB : SameLogical mB₁ vB₁ mB₂ vB₂) :
+    hitmissView mA₁ vA₁ mB₁ vB₁ = hitmissView mA₂ vA₂ mB₂ vB₂ := by
+  rw [hitmissView_eq_C14 mA₁ vA₁ mB₁ vB₁ wA₁ wB₁ hl,
+    hitmissView_eq_C14 mA₂ vA₂ mB₂ vB₂ wA₂ wB₂ (by rw [← hA.1, ← hB.1]; exact hl),
+    hA.toImg_eq, (logical_eq_of_toImg _ _ _ _ hB.toImg_eq).1, hA.1, hB.1]
+
+/-- **hitmiss is correct for any memory layout**: for templates with odd sides the output is 1 exactly where the
+whole template lies inside the image and every 0/1 entry equals the pixel under it (`C14_hitmiss_eq_spec`). -/
+theorem C08_hitmiss_view_correct (mA : Int → Int) (vA : View) (mB : Int → Int) (vB : View) (wfA : vA.WF)
+    (wfB : vB.WF) (hl : vB.shape.length = vA.shape.length) (hne : vA.shape ≠ [])
+    (hodd : ∀ b ∈ vB.shape, b % 2 = 1) :
+    hitmissView mA vA mB vB =
+      (((allPos vA.shape).map
+        (C14.hitmissSpecAt (toImg mA vA) vB.shape (logical mB vB).toArray)).toArray).map some := by
+  rw [hitmissView_eq_C14 mA vA mB vB wfA wfB hl]
+  congr 2
+  apply List.map_congr_left
+  intro p hp
+  exact C14_hitmiss_eq_spec (toImg mA vA) vB.shape _ p hodd hne hl (C10.mem_allPos _ _ hp).2
+
+/-- **bbox is correct for any memory layout** (both code paths): all zeros for an image without non-zero pixel,
+otherwise the box left by the scan of the logical array, which `C13_bbox_generic_tight` shows tight on every axis. -/
+theorem C08_bbox_view_correct (mA : Int → Int) (vA : View) (wf : vA.WF) (hnd : 0 < vA.shape.length) :
+    let data := logical mA vA
+    let ps := ((List.range data.length).filter fun i => data.getD i 0 ≠ 0).map (unravelI vA.shape)
+    let ext := (List.range data.length).foldl (fun ext i =>
+      if data.getD i 0 ≠ 0 then C13.bboxUpdate ext (unravelI vA.shape i) else ext) (C13.bboxInit vA.shape)
+    (ps = [] → bboxView mA vA = (C13.bboxInit vA.shape).map (fun _ => 0)) ∧
+    (ps ≠ [] → bboxView mA vA = ext) := by
+  intro data ps ext
+  rw [(C08_bbox_layout_free mA vA wf).1]
+  exact C13_bbox_result vA.shape (logical mA vA) (logical_length mA vA) hnd
+
+/-- **center_of_mass is correct for any memory layout**: over any field, `Σ v·coord_j / Σ v` per label and axis of the
+logical image (`C13_com_eq`). -/
+theorem C08_center_of_mass_view_correct {α : Type} [Field α] (mA : Int → α) (vA : View) (wf : vA.WF)
+    (labels : List Int) :
+    comView (C13.fieldOps α) mA vA labels =
+      (List.range ((C13.maxOf labels).toNat + 1)).flatMap fun l =>
+        (List.range vA.shape.length).map fun j =>
+          (((List.range (logical mA vA).length).filter fun i => (labels.getD i 0).toNat = l).map fun i =>
+              (logical mA vA).getD i 0 * (((unravel vA.shape i).getD j 0 : Nat) : α)).sum /
+          (((List.range (logical mA vA).length).filter fun i => (labels.getD i 0).toNat = l).map fun i =>
+              (logical mA vA).getD i 0).sum := by
+  rw [(C08_center_of_mass_layout_free (C13.fieldOps α) mA mA vA vA wf wf labels ⟨rfl, fun _ _ => rfl⟩).1]
+  exact C13_com_eq vA.shape (logical mA vA) labels
+
+
+/-- **cwatershed is correct for any memory layout** (composition of `C08_cwatershed_layout_free` with C04-T4/T5): for
+every view of the surface, of the markers and of the structuring element, in the label output of the view kernel
+(i) every marker pixel keeps its label, (ii) every labelled pixel is joined to a marker of its own label by
+neighbourhood steps inside the image along which the label is constant, (iii) a pixel no marker can reach is 0 —
+all stated on the logical arrays. -/
+theorem C08_cwatershed_view_correct (mS mM mB : Int → Int) (vS vM vB : View) (wS : vS.WF) (wM : vM.WF) (wB : vB.WF)
+    (hm : vM.shape = vS.shape) (hb : vB.shape.length = vS.shape.length) (p : List Int)
+    (hp : inside vS.shape p = true) :
+    let labels : Img Int := ⟨vS.shape, (cwatershedView mS vS mM vM mB vB).res⟩
+    let offs := C04.offsets vB.shape (logical mB vB).toArray
+    ((toImg mM vM).getD p 0 ≠ 0 → labels.getD p 0 = (toImg mM vM).getD p 0) ∧
+    (labels.getD p 0 ≠ 0 → C04.Joined vS.shape offs (toImg mM vM) (fun r => labels.getD r 0) p) ∧
+    (¬ C04.Reach vS.shape offs (toImg mM vM) p → labels.getD p 0 = 0) := by
+  intro labels offs
+  have e := (C08_cwatershed_layout_free mS mS mM mM mB mB vS vS vM vM vB vB wS wS wM wM wB wB
+    ⟨rfl, fun _ _ => rfl⟩ ⟨rfl, fun _ _ => rfl⟩ ⟨rfl, fun _ _ => rfl⟩).1
+  have hl : labels = C04.modelLabels (toImg mS vS) (toImg mM vM) vB.shape (logical mB vB).toArray := by
+    show (⟨vS.shape, (cwatershedView mS vS mM vM mB vB).res⟩ : Img Int) = _
+    rw [e]; rfl
+  rw [hl]
+  exact ⟨fun hk => C04_markers_keep_labels _ _ _ _ hm hb p hp hk,
+    fun h => C04_regions_connected _ _ _ _ hm hb p hp h,
+    fun h => C04_unreached_zero _ _ _ _ hm hb p hp h⟩
+
+/-- **F15 and value-level tie of the binary fast path.** `fast_binary_dilate_erode_2d` (taken by `py_erode` /
+`py_dilate` for 2-D bool C-arrays) only ever *updates* its output in the row loops (`&=`, `|=`). Started on an output
+nobody has written (`none` everywhere; an update of an unwritten cell leaves it unwritten), for every image shape
+`Ny × Nx`, every 2-D structuring element in any memory layout (read through `Bc.at(y, x)`) and both branches: the
+`std::copy` / `std::fill_n` in front of the loops assigns every cell, no cell is unwritten at the end, and the output is
+cell by cell `some` of C01's row-loop model (`fastErodeLoops` / `fastDilateLoops`) run on the logical arrays. -/
+theorem C08_defined_everywhere_fast_binary (isErosion : Bool) (mA : Int → Int) (vA : View) (mB : Int → Int)
+    (vB : View) (Ny Nx By Bx : Nat) (hA : vA.shape = [Ny, Nx]) (hB : vB.shape = [By, Bx]) (wfA : vA.WF)
+    (hc : vA.carray = true) :
+    fastBinaryView isErosion mA vA mB vB =
+      (if isErosion then C01.fastErodeLoops (toImg mA vA) vB.shape (logical mB vB).toArray
+       else C01.fastDilateLoops (toImg mA vA) vB.shape (logical mB vB).toArray).map some ∧
+    AllSome (fastBinaryView isErosion mA vA mB vB) := by
+  have h := fastBinaryView_eq isErosion mA vA mB vB Ny Nx By Bx hA hB wfA hc
+  refine ⟨h, ?_⟩
+  rw [h]
+  intro o ho
+  simp only [Array.toList_map, List.mem_map] at ho
+  obtain ⟨x, _, rfl⟩ := ho
+  rfl
+
+/-- **the binary fast path of erode is correct** (composition with `C01_fast_erode_loops_eq_pointwise`): for a 0/1
+image the cell the fast path leaves at every pixel `(y, x)` is the lattice definition `C01.erodeSpecAt` over the
+compressed support of the logical element — the same value the generic kernel writes (`C08_erode_view_correct`), so
+the dispatch of `py_erode` on `ISCARRAY` (a property of the memory layout) is unobservable. -/
+theorem C08_fast_erode_view_correct (mA : Int → Int) (vA : View) (mB : Int → Int) (vB : View) (Ny Nx By Bx : Nat)
+    (hA : vA.shape = [Ny, Nx]) (hB : vB.shape = [By, Bx]) (wfA : vA.WF) (hc : vA.carray = true)
+    (h01 : ∀ q, (toImg mA vA).getD q 0 = 0 ∨ (toImg mA vA).getD q 0 = 1)
+    (y x : Int) (hp : inside vA.shape [y, x] = true) :
+    pyErodeView dtBool mA vA mB vB = fastBinaryView true mA vA mB vB ∧
+    (fastBinaryView true mA vA mB vB).getD (ravelI vA.shape [y, x]) none =
+      some (C01.erodeSpecAt dtBool (toImg mA vA) (C01.support vB.shape (logical mB vB).toArray true) [y, x]) := by
+  constructor
+  · unfold pyErodeView
+    rw [if_pos (by simp [dtBool, hA, hc])]
+  · have hdata : (toImg mA vA).data.size = (toImg mA vA).size := by
+      simp [toImg, Img.size, logical_length]
+    obtain ⟨hsz, _, hspec⟩ := C01_fast_erode_loops_eq_pointwise (toImg mA vA) Ny Nx vB.shape (logical mB vB).toArray
+      y x hA hdata h01 hp
+    rw [(C08_defined_everywhere_fast_binary true mA vA mB vB Ny Nx By Bx hA hB wfA hc).1]
+    simp only [if_true]
+    rw [map_some_getD _ _ 0 (by rw [hsz]; exact C01.ravelI_lt _ _ hp)]
+    congr 1
+    exact hspec By Bx hB (by simp [logical_length, hB, shapeSize])
+
+
+/-- **the binary fast path of dilate equals the generic kernel, for any layout of `Bc`** (composition with
+`C01_fast_dilate_loops_eq_pointwise` and `C01_fast_dilate_eq_generic`): on a 0/1 image the fast path taken by
+`py_dilate` for 2-D bool C-arrays writes exactly the array the generic view kernel `dilateView` writes — the
+`ISCARRAY` dispatch, a property of the memory layout, is unobservable, and `C08_dilate_view_correct` applies to both. -/
+theorem C08_fast_dilate_view_eq_generic (mA : Int → Int) (vA : View) (mB : Int → Int) (vB : View) (Ny Nx By Bx : Nat)
+    (hA : vA.shape = [Ny, Nx]) (hB : vB.shape = [By, Bx]) (wfA : vA.WF) (hc : vA.carray = true)
+    (h : FilterArgs (outView vA.shape) vB true)
+    (h01 : ∀ q, (toImg mA vA).getD q 0 = 0 ∨ (toImg mA vA).getD q 0 = 1) :
+    pyDilateView dtBool mA vA mB vB = fastBinaryView false mA vA mB vB ∧
+    fastBinaryView false mA vA mB vB = dilateView dtBool mA vA mB vB := by
+  constructor
+  · unfold pyDilateView
+    rw [if_pos (by simp [dtBool, hA, hc])]
+  · have hdata : (toImg mA vA).data.size = (toImg mA vA).size := by
+      simp [toImg, Img.size, logical_length]
+    have hb : dtBool.isBool = true := rfl
+    rw [(C08_defined_everywhere_fast_binary false mA vA mB vB Ny Nx By Bx hA hB wfA hc).1,
+      dilateView_eq_C01 dtBool mA vA mB vB wfA (hb ▸ h)]
+    simp only [Bool.false_eq_true, if_false, hb]
+    rw [C01_fast_dilate_loops_eq_pointwise (toImg mA vA) Ny Nx vB.shape _ hA hdata h01, hB,
+      C01_fast_dilate_eq_generic (toImg mA vA) Ny Nx By Bx _ hA hdata h01
+        (by simp [logical_length, hB, shapeSize])]
+
+
+/-! non-vacuity (Round 3). (i) The Fortran-ordered 2×2 view of `[[5,9],[3,1]]` and the 1×2 element of the Round-2 example
+    meet the hypotheses of `C08_erodeView_eq_C01`; the right-hand side is the non-trivial array `[4,4,2,0]` of
+    `C01.erodeModel` on the logical arrays. (ii) hitmiss on a 3×3 Fortran-ordered view with a 3×3 template in a
+    *reversed* layout: the centre pixel is evaluated (so the in-bounds argument is exercised: eight `i + delta ≠ i`) and
+    matches. (iii) the binary fast path on a 2×3 C-array with the element `[[1,1]]` (centre set: `std::copy`) and `[[1,0]]`
+    read through negative strides (centre not set: `std::fill_n`): every cell defined, values as C01's row loops. -/
+namespace Mahotas.C08.Example
+theorem fa : FilterArgs vF vB false :=
+  ⟨⟨rfl, by decide⟩, ⟨rfl, by decide⟩, by (unfold View.Pos; decide), by (unfold View.Pos; decide), rfl, fun _ => rfl⟩
+
+example : erodeView (dtU 8) memF vF memB vB =
+      (C01.erodeModel (dtU 8) (toImg memF vF) (C01.support vB.shape (logical memB vB).toArray false)).map some ∧
+    (C01.erodeModel (dtU 8) (toImg memF vF) (C01.support vB.shape (logical memB vB).toArray false)).toList
+      = [4, 4, 2, 0] :=
+  ⟨C08_erodeView_eq_C01 (dtU 8) memF vF memB vB fa, by decide +kernel⟩
+
+def memH : Int → Int := fun a => [1, 0, 1, 0, 1, 0, 1, 1, 0].getD a.toNat 0      -- Fortran order of [[1,0,1],[0,1,1],[1,0,0]]
+def vH : View := { base := 0, shape := [3, 3], strides := [1, 3] }
+def memT : Int → Int := fun a => [0, 0, 1, 1, 1, 0, 1, 0, 1].getD a.toNat 0      -- the template, stored reversed
+def vT : View := { base := 8, shape := [3, 3], strides := [-3, -1] }
+
+example : vH.WF ∧ vT.WF ∧ logical memH vH = [1, 0, 1, 0, 1, 1, 1, 0, 0] ∧ logical memT vT = [1, 0, 1, 0, 1, 1, 1, 0, 0] ∧
+    C14.hmEvaluated vH.shape vT.shape (unravelI vH.shape 4) = true ∧
+    (hitmissView memH vH memT vT).toList = [some 0, some 0, some 0, some 0, some 1, some 0, some 0, some 0, some 0] := by
+  refine ⟨⟨rfl, by decide⟩, ⟨rfl, by decide⟩, by decide +kernel, by decide +kernel, by decide +kernel, by decide +kernel⟩
+
+def memI : Int → Int := fun a => [1, 1, 0, 1, 1, 1].getD a.toNat 0
+def vI : View := { base := 0, shape := [2, 3], strides := [3, 1], carray := true }
+def memE : Int → Int := fun a => [0, 1].getD a.toNat 0                           -- `[[1,0]]` stored reversed
+def vE : View := { base := 1, shape := [1, 2], strides := [-2, -1] }
+
+example : pyErodeView dtBool memI vI memB vB = fastBinaryView true memI vI memB vB ∧
+    (fastBinaryView true memI vI memB vB).toList = [some 1, some 1, some 0, some 1, some 1, some 1] ∧
+    (fastBinaryView false memI vI memB vB).toList = [some 1, some 1, some 0, some 1, some 1, some 1] ∧
+    logical memE vE = [1, 0] ∧
+    (fastBinaryView true memI vI memE vE).toList = [some 1, some 1, some 1, some 1, some 1, some 1] ∧
+    (fastBinaryView false memI vI memE vE).toList = [some 1, some 0, some 0, some 1, some 1, some 0] := by
+  decide +kernel
 end Mahotas.C08.Example
